@@ -103,12 +103,7 @@ impl Property for C14 {
     fn judge_tape(&self, tape: &[u8], ctx: &mut Ctx) -> Judged {
         let mut t = Tape::new(tape);
         let g = generate(&mut t, &Profile::object_heavy());
-        let n = COUNTER.with(|c| {
-            let mut c = c.borrow_mut();
-            *c += 1;
-            *c
-        });
-        let sample = ctx.counting && n % ctx.tier.pick(60, 20) == 0;
+        let sample = tape_sample(tape, ctx.tier.pick(60, 20));
         let _ = hex(tape);
         judge(&g.prog, ctx, sample, g.fault.as_deref())
     }
